@@ -151,7 +151,9 @@ func isWordTok(t *kvql.Token) bool {
 // Latin-1 no-break space
 // (round 10: the carriage return, so that a Windows line end behind a word,
 // "a\r\n", is among the enumerated strings)
-const c16Alphabet = "a1. '\"`=!<>^~&|()[],;+-*/\t\n\r\xff\f\xc3\xa0"
+// (round 12: the backslash - the language has no escape sequences, a quote
+// behind a backslash closes its literal like any other)
+const c16Alphabet = "a1. '\"`=!<>^~&|()[],;+-*/\t\n\r\xff\f\xc3\xa0\\"
 
 func c16Nontrivial(q string) bool {
 	// a two-character operator, or a quoted literal adjacent to another token
@@ -232,7 +234,7 @@ var c16Puncts = []string{"(", ")", "[", "]", ",", ";"}
 
 // (the last four: letters whose lower-case form has another byte length; a
 // literal keeps them as written, the words behind it keep their offsets)
-var c16Inner = []string{"", "a", "A b", "k=1", "x<=y", "(", "a,b", " ", "!", "and", "1+2", "ü", "a;b|c&d", "\u023a", "\u212a", "\u0130", "\u1e9e\u212b"}
+var c16Inner = []string{"", "a", "A b", "k=1", "x<=y", "(", "a,b", " ", "!", "and", "1+2", "ü", "a;b|c&d", "\u023a", "\u212a", "\u0130", "\u1e9e\u212b", "C:\\data\\", "\\", "a\\b"}
 
 func genC16Tok(t *rapid.T) c16Tok {
 	switch rapid.IntRange(0, 9).Draw(t, "tokclass") {
